@@ -89,12 +89,28 @@ class Rule:
             return False
 
 
+class Cascade:
+    """A listener that derives one option from another: subscribed to `src`; whenever `src` is among the updated names and
+    its value is truthy it performs a nested update dst := f(src value).  It never reacts to a falsy src, so it does not
+    undo its derived value when it is re-notified with a restored state."""
+
+    def __init__(self, name, src, dst, f):
+        self.name = name
+        self.src = src
+        self.dst = dst
+        self.f = f
+
+    def fires(self, names, values) -> bool:
+        return self.src in names and bool(values[self.src])
+
+
 class OptModel:
     def __init__(self):
         self.kinds: dict[str, str] = {}
         self.defaults: dict[str, object] = {}
         self.values: dict[str, object] = {}
         self.rules: list[Rule] = []
+        self.cascades: list[Cascade] = []
         self.deferred: dict[str, object] = {}  # name -> value | ("specs", [str])
 
     def add_option(self, name, kind, default):
@@ -102,20 +118,32 @@ class OptModel:
         self.defaults[name] = default
         self.values[name] = default
 
+    def derived(self, assign: dict) -> dict:
+        """Options that cascading listeners set in reaction to an accepted assignment of exactly these names."""
+        new = dict(self.values)
+        new.update(assign)
+        return {c.dst: c.f(new[c.src]) for c in self.cascades if c.fires(assign.keys(), new)}
+
     def predict(self, assign: dict):
-        """Outcome of assigning exactly these known options: ("ok", names) | ("TypeError",) | ("OptionsError", rule)."""
+        """Outcome of assigning exactly these known options:
+        ("ok", names, derived) | ("TypeError",) | ("OptionsError", rule).
+        A rejected assignment changes nothing at all -- neither the assigned names nor anything a listener derived."""
         for k, v in assign.items():
             if not conforms(v, self.kinds[k]):
                 return ("TypeError",)
+        derived = self.derived(assign)
         new = dict(self.values)
         new.update(assign)
+        new.update(derived)
         for r in self.rules:
-            if r.hears(assign.keys()) and r.rejects(new):
+            # a rule hears the outer update if it is in scope, and every nested update of a derived option if it is global
+            if (r.hears(assign.keys()) or (derived and r.scope is None)) and r.rejects(new):
                 return ("OptionsError", r.name)
-        return ("ok", set(assign))
+        return ("ok", set(assign), derived)
 
-    def commit(self, assign):
+    def commit(self, assign, derived=None):
         self.values.update(assign)
+        self.values.update(derived or {})
 
     def non_default(self):
         return {k: v for k, v in self.values.items() if not same(v, self.defaults[k])}
